@@ -1,5 +1,6 @@
 import Driver.Proto
 import Neutrino.Spec.Subs
+import Neutrino.Model.SubsReg
 open Neutrino.Subs
 namespace Driver.Drv.Subs
 
@@ -61,6 +62,32 @@ def obsOf (m : List (Nat × Obs)) (i : Nat) : Obs := ((m.find? (·.1 == i)).map 
 def setObs (m : List (Nat × Obs)) (i : Nat) (o : Obs) : List (Nat × Obs) :=
   if m.any (·.1 == i) then m.map (fun p => if p.1 == i then (i, o) else p) else m ++ [(i, o)]
 
+/-- The model keeps its subscribers in a function; every step wraps it once more.  Rebuild it as a
+table over the ids in use (the same function on those ids, `none` elsewhere as before: ids are only
+ever added through `subscribe`), so that a case of thousands of events costs thousands of steps. -/
+def compact (s : State) (ids : List Nat) : State :=
+  let tbl := ids.map (fun i => (i, s.subs i))
+  { s with subs := fun i => match tbl.find? (·.1 == i) with | some p => p.2 | none => none }
+
+/-- the registration handshake when Stop overtakes a registration that is inside the backlog lookup:
+the events up to the observation point, and whether the model lets Stop return -/
+def regStopEvents (gaveUp : Bool) : List Reg.Ev :=
+  [.take, .quitClose] ++ (if gaveUp then [.clientGiveUp] else []) ++ [.lookupDone, .reply, .clientRecv, .handlerExit]
+
+def modelStopReturns (gaveUp : Bool) : Bool :=
+  Reg.stopReturns (Reg.run Neutrino.Gen.Subs.replyChanCap Reg.init (regStopEvents gaveUp))
+
+/-- `ns.foldl Obs.emit o` in one append (a run of thousands of notifications is applied to the records
+when the next observation is due, not one by one) -/
+def emitMany (o : Obs) (ns : List Ntfn) : Obs :=
+  if o.ended || ns.isEmpty then o else { o with expected := o.expected ++ ns }
+
+/-- `Obs.recv` with the all-in-order batch decided in one pass; any other batch goes through `Obs.recv`,
+which names the first offending item -/
+def recvFast (o : Obs) (items : List Ntfn) : Obs × Verdict :=
+  if !o.sawClosed && items.isPrefixOf (o.expected.drop o.got.length) then ({ o with got := o.got ++ items }, .ok)
+  else o.recv items
+
 /-- parse `[a b c] tail...` -/
 def listAndTail (ws : List String) : Option (List Ntfn × List String) :=
   let (inner, rest) := bracket ws
@@ -78,9 +105,16 @@ def runCase : CaseFn := fun c => Id.run do
   -- an open registration window: (id, height, backlog snapshot) and what the source emitted since
   let mut win : Option (Nat × Nat × List Ntfn) := none
   let mut winQ : List Ntfn := []
+  let mut gaveUp := false
+  let mut pend : Array Ntfn := #[]     -- taken by the handler, not yet entered into the records
   for (ln, line) in c.lines do
+    st := compact st ids
     let (op, ob) := splitObs line
     let ws := words op
+    if ws.head? != some "emit" && !pend.isEmpty then
+      let l := pend.toList
+      obs := obs.map (fun p => (p.1, emitMany p.2 l))
+      pend := #[]
     let sfx := if kind == "stoprace" then "-during-stop" else ""
     let fail := fun (shape msg : String) => s!"ORACLE-FAIL C11 case {c.num} line {ln}: shape={shape}{sfx} {msg}"
     let diff := fun (msg : String) => s!"DIFF C11 case {c.num} line {ln}: {op} impl=<{ob}> {msg}"
@@ -96,7 +130,7 @@ def runCase : CaseFn := fun c => Id.run do
         if ob.startsWith "ok" then
           obs := setObs obs i (Obs.start bl)
           if !ids.contains i then ids := ids ++ [i]
-        else if ob == "HANG" then out := out.push (fail "hang" s!"NewSubscription never returned")
+        else if ob.startsWith "HANG" then out := out.push (fail "hang" s!"NewSubscription never returned ({ob})")
         if det && !diverged then
           let (s', o) := step st (.subscribe i h bl)
           st := settle s' ids
@@ -112,7 +146,7 @@ def runCase : CaseFn := fun c => Id.run do
       | some (bl, _) =>
         if ob == "parked" then
           win := some (nat! i, nat! h, bl); winQ := []
-        else if ob == "HANG" then out := out.push (fail "hang" "NewSubscription neither reached the backlog lookup nor returned")
+        else if ob.startsWith "HANG" then out := out.push (fail "hang" s!"NewSubscription neither reached the backlog lookup nor returned ({ob})")
         else if det && !diverged then
           out := out.push (diff "model=<parked>"); diverged := true
     | ["subend", i] =>
@@ -124,7 +158,7 @@ def runCase : CaseFn := fun c => Id.run do
           -- the subscriber is owed the snapshot, then everything emitted since the snapshot
           obs := setObs obs wi (winQ.foldl Obs.emit (Obs.start bl))
           if !ids.contains wi then ids := ids ++ [wi]
-        else if ob == "HANG" then out := out.push (fail "hang" "NewSubscription never returned after the backlog lookup completed")
+        else if ob.startsWith "HANG" then out := out.push (fail "hang" s!"NewSubscription never returned after the backlog lookup completed ({ob})")
         if det && !diverged then
           let (s1, o) := step st (.subscribe wi h bl)
           -- the handler is free again: it takes the queued notifications one by one
@@ -151,13 +185,13 @@ def runCase : CaseFn := fun c => Id.run do
         if ob == "queued" then
           -- emitted while a registration is in progress: every registered subscriber is owed it
           -- (Obs.emit), the one being registered is owed it after its backlog (winQ, see subend)
-          obs := obs.map (fun p => (p.1, p.2.emit n))
+          pend := pend.push n
           winQ := winQ ++ [n]
           if win.isNone then out := out.push (diff "queued emit outside a registration window")
           if det && !diverged then st := (step st (.emit n)).1
           continue
-        if ob == "ok" then obs := obs.map (fun p => (p.1, p.2.emit n))
-        else if ob == "HANG" then out := out.push (fail "hang" "handler never took the notification")
+        if ob == "ok" then pend := pend.push n
+        else if ob.startsWith "HANG" then out := out.push (fail "hang" s!"handler never took the notification ({ob})")
         if det && !diverged then
           let (s1, _) := step st (.emit n)
           let (s2, o) := step s1 .handlerFanout
@@ -176,7 +210,7 @@ def runCase : CaseFn := fun c => Id.run do
       | none => out := out.push (diff "unparsable observation")
       | some (items, tail) =>
         let o0 := obsOf obs i
-        let (o1, v) := o0.recv items
+        let (o1, v) := recvFast o0 items
         if v != .ok then out := out.push (fail v.shape s!"subscriber {i}: {explain o0 items}")
         let mut o2 := o1
         if tail == ["closed"] then
@@ -221,15 +255,49 @@ def runCase : CaseFn := fun c => Id.run do
           out := out.push (diff s!"model=<{m}>"); diverged := true
     | ["cancel", i] =>
       let i := nat! i
-      if ob == "HANG" then out := out.push (fail "hang" s!"Cancel of {i} never completed")
+      if ob.startsWith "HANG" then out := out.push (fail "hang" s!"Cancel of {i} never completed ({ob})")
       if det then obs := setObs obs i (obsOf obs i).end
       if det && !diverged then
         st := (step st (.cancel i)).1
     | ["stop"] =>
-      if ob == "HANG" then out := out.push (fail "hang" "Stop never returned")
+      if ob.startsWith "HANG" then out := out.push (fail "hang" s!"Stop never returned ({ob})")
       obs := obs.map (fun p => (p.1, p.2.end))
       if det && !diverged then
         st := (step st .stop).1
+    | ["stopbegin"] =>
+      -- Stop has been called while the registration of `win` is inside the backlog lookup: from here on
+      -- every subscriber's stream has ended (the model's stop is atomic; nothing is emitted any more)
+      obs := obs.map (fun p => (p.1, p.2.end))
+      if win.isNone then out := out.push (diff "Stop overtaking a registration, but none is in progress")
+      if det && !diverged then
+        st := (step st .stop).1
+    | ["subgiveup", i] =>
+      -- the caller of NewSubscription after Stop closed the quit channel, the handler still in the lookup
+      match win with
+      | none => out := out.push (diff "no registration in progress")
+      | some (wi, h, bl) =>
+        if wi != nat! i then out := out.push (diff "not the registration in progress")
+        gaveUp := ob == "stopped"
+        if ob.startsWith "PANIC" then out := out.push (fail "panic" s!"NewSubscription overtaken by Stop: {ob}")
+        if det && !diverged then
+          let (s', o) := step st (.subscribe wi h bl)
+          st := s'
+          let m := match o with | .ok => "registered" | .stopped => "stopped" | _ => "invalid"
+          if m != ob then
+            out := out.push (diff s!"model=<{m}>"); diverged := true
+    | ["subanswer", _] =>
+      if ob.startsWith "HANG" then out := out.push (fail "hang" s!"NewSubscription never returned although the backlog lookup completed and Stop was called ({ob})")
+    | ["stopend"] =>
+      win := none; winQ := []
+      -- oracle (implementation's own observation): Stop returns whatever the registrant did
+      if ob.startsWith "HANG" then
+        out := out.push (fail "hang" s!"Stop never returned after it overtook a registration whose caller had {if gaveUp then "given up" else "not given up"}: the handler must not wait for a client ({ob})")
+      else if ob.startsWith "PANIC" then out := out.push (fail "panic" s!"Stop overtaking a registration: {ob}")
+      -- model: the handshake with the reply channel's extracted capacity
+      if det && !diverged then
+        let m := if modelStopReturns gaveUp then "ok" else "HANG"
+        if m != (if ob.startsWith "HANG" then "HANG" else ob) then
+          out := out.push (diff s!"model=<{m}>"); diverged := true
     | ["settle"] =>
       -- free mode: `[i:n j:m]` = how many items each fast, never-cancelled subscriber has received
       let (inner, _) := bracket (words ob)
